@@ -152,23 +152,22 @@ static inline Res chk_rcp_safe(uint32_t b)
 {
   const float x = f_of(b);
   const float r = rk::rcp_safe(x);
-  if (!finite_b(b))
-    return {true, false, 4, 0.0};
   const uint32_t m = b & 0x7fffffffu;
-  bool ok = finite_b(b_of(r));
-  if (b == 0u || x > 0.f)
-    ok = ok && !(r < 0.f);
-  else if (x < 0.f)
-    ok = ok && !(r > 0.f);
-  double e = 0.0;
-  int cls;
-  if (in_acc_domain(b)) {
-    e = std::fabs((double)r * (double)x - 1.0);
-    ok = ok && e <= TOL20;
-    cls = 0;
-  } else
-    cls = m == 0 ? 1 : (m < 0x00800000u ? 2 : 3);
-  return {ok, true, cls, e};
+  if (m >= 0x7f800000u)
+    return {true, false, 4, 0.0};
+  // branch-free on the result: decided on bit patterns
+  const uint32_t rb = b_of(r), rm = rb & 0x7fffffffu;
+  const bool rNonFinite = rm >= 0x7f800000u;
+  const bool rNeg = (rb >> 31) && rm != 0;      // r < 0
+  const bool rPos = !(rb >> 31) && rm != 0;     // r > 0
+  const bool xNeg = (b >> 31) && m != 0;        // x < 0
+  const bool xPosOrPlusZero = !(b >> 31);       // x > 0 or x == +0
+  bool bad = rNonFinite | (xPosOrPlusZero & rNeg) | (xNeg & rPos);
+  const bool dom = in_acc_domain(b);
+  const double e = std::fabs((double)r * (double)x - 1.0);
+  bad |= dom & !(e <= TOL20);
+  const int cls = dom ? 0 : (m == 0 ? 1 : (m < 0x00800000u ? 2 : 3));
+  return {!bad, true, cls, dom ? e : 0.0};
 }
 static std::string msg_rcp_safe(uint32_t b)
 {
